@@ -19,7 +19,9 @@ INFO = {
 
 KINDS = ['small', 'large', 'empty', 'binary', 'streamed', 'ctx', 'redirect', 'raise403', 'ret404', 'boom', 'unknown', 'wrongmethod',
          'slashredirect', 'static-text', 'static-binary', 'static-empty', 'static-noext', 'static-missing', 'static-304', 'meta', 'metajson',
-         'status201', 'status204', 'unicode', 'nb403', 'form', 'slashredirect-rawquery', 'small-rawquery']
+         'status201', 'status204', 'unicode', 'nb403', 'form', 'slashredirect-rawquery', 'small-rawquery',
+         # error texts as programs produce them: a dict repr, a JSON fragment, format / template syntax
+         'boombrace', 'badbrace', 'retbrace']
 METHODS = ['GET', 'HEAD', 'POST', 'OPTIONS']
 HEADERSETS = [{}, {'Accept': 'text/html', 'Accept-Encoding': 'gzip'}, {'Accept': 'application/json', 'Accept-Encoding': 'identity', 'Cookie': 'a=b'},
               {'Accept': '*/*', 'Accept-Encoding': 'gzip, deflate', 'User-Agent': 'zq/1.0', 'Referer': 'http://x/'}]
@@ -67,7 +69,15 @@ def scenario_app(base, debug, processed):
 
     def form(request):
         return Response('form:%s' % request.form.get('x', '-'))
+
+    def boombrace():
+        raise KeyError({'name': 'zq', 0: [1, {}]})
+
+    def badbrace():
+        raise errors.BadRequest('cannot parse {"name": } near %s and {0} {x!r:>{w}} }{')
     routes = [
+        ('/boombrace', boombrace), ('/badbrace', badbrace),
+        ('/retbrace', lambda: errors.NotFound(detail='no {thing} here: {{}} %(x)s {0}', is_breaking=False)),
         ('/small', lambda: Response('hello')), ('/large', lambda: Response('lorem ipsum ' * 3000)), ('/empty', lambda: Response('')),
         ('/binary', lambda: Response(b'\xff\x00' * 500, mimetype='application/octet-stream')), ('/streamed', lambda: Response(gen())),
         ('/ctx', lambda: {'a': [1, 2], 'b': 'x' * 300}, render_basic), ('/redirect', lambda: redirect('/small')),
